@@ -704,8 +704,45 @@ def rule_l7(ctx):
     return res
 
 
+def rule_l14(ctx):
+    """The literal parser type-checks its text like a program: where the checker re-types an untyped range (`0..3` as [i8; 3]:
+    C05-S18), the argument parser hands out a Literal::Range.  The gate has to accept a range for the same element kinds, otherwise
+    `parse_arg(0, "0..3")` answers with a literal that `literal_arg` / `set_literal` refuse (and the same text is fine inside a program)."""
+    from . import C05
+    res = RuleResult("L14", "is_of_type accepts a Range literal for the element kinds for which the checker re-types an untyped range")
+    kinds = C05.range_retype_kinds(ctx)
+    gb = ctx.body(IS_OF_TYPE)
+    region = set(gb.reachable([0], succ=gb.pruned_succ({(SELF1, ()): "Range"})))
+    if len(region) == len(gb.reachable([0])):
+        raise AnchorMissing("L14: cannot isolate the Range arm of is_of_type")
+    gate = set()
+    for b in sorted(region):
+        if gb.blocks[b]["cleanup"]:
+            continue
+        info = gb.switch_info(b)
+        if info and info[2] == "ast::Type":
+            t = gb.term(b)
+            for v, x in t["targets"]:
+                if info[1].get(v) in ("Unsigned", "Signed"):
+                    gate.add(info[1][v])
+        for st in gb.blocks[b]["stmts"]:
+            if st["k"] == "assign" and st["rv"]["k"] == "aggregate" and st["rv"].get("adt") == "ast::Type" and st["rv"].get("variant") in ("Unsigned", "Signed"):
+                gate.add(st["rv"]["variant"])       # `elem_ty == &Type::Unsigned(num_ty)`
+    if not gate:
+        raise AnchorMissing("L14: the Range arm of is_of_type does not look at the element type")
+    for kind in sorted(kinds):
+        if kind in gate:
+            res.ok({"element_kind": kind, "verdict": "re-typed by the checker, accepted by the gate"})
+        else:
+            res.bad(Finding("L14", IS_OF_TYPE, "a Range literal is never an array of %s numbers" % kind.lower(),
+                            "the checker re-types an untyped range for Type::%s elements, so the argument parser answers `0..3` for a parameter of type [i8; 3] with Literal::Range - "
+                            "and is_of_type refuses that literal: literal_arg / set_literal / parse_literal fail with InvalidLiteralType for a text that is accepted inside a program" % kind,
+                            ctx.fn(IS_OF_TYPE)["sp"]))
+    return res
+
+
 def run(ctx):
-    return ctx.run_rules([rule_l1, rule_l1b, rule_l2, rule_l3, rule_l4, rule_l5, rule_l6, rule_l7, rule_l8, rule_l9, rule_l10, rule_l11, rule_l12, rule_l13])
+    return ctx.run_rules([rule_l1, rule_l1b, rule_l2, rule_l3, rule_l4, rule_l5, rule_l6, rule_l7, rule_l8, rule_l9, rule_l10, rule_l11, rule_l12, rule_l13, rule_l14])
 
 
 # ---- the literal parser ------------------------------------------------------------------------------
